@@ -24,7 +24,7 @@ package bufiox
 //@   ensures (err == nil) == (0 <= n && n <= len(old(self.$u)))
 //@   ensures err == nil ==> len(p) == n && eqbytes(p, 0, old(self.$u), 0, n) && rdTake(self, n)
 //@   ensures err != nil ==> isnil(p) && rdSame(self)
-//@   ensures err != nil ==> same(self.$lasterr, err)
+//@   ensures[ghostdef] err != nil ==> same(self.$lasterr, err)
 //@   assigns self.$u, self.$readlen, self.$lasterr
 
 //@ iface Reader.Peek
@@ -34,7 +34,7 @@ package bufiox
 //@   ensures err == nil ==> len(buf) == n && eqbytes(buf, 0, old(self.$u), 0, n)
 //@   ensures err != nil ==> isnil(buf)
 //@   ensures rdSame(self)
-//@   ensures err != nil ==> same(self.$lasterr, err)
+//@   ensures[ghostdef] err != nil ==> same(self.$lasterr, err)
 //@   assigns self.$u, self.$readlen, self.$lasterr
 
 //@ iface Reader.Skip
@@ -43,7 +43,7 @@ package bufiox
 //@   ensures (err == nil) == (0 <= n && n <= len(old(self.$u)))
 //@   ensures err == nil ==> rdTake(self, n)
 //@   ensures err != nil ==> rdSame(self)
-//@   ensures err != nil ==> same(self.$lasterr, err)
+//@   ensures[ghostdef] err != nil ==> same(self.$lasterr, err)
 //@   assigns self.$u, self.$readlen, self.$lasterr
 
 //@ iface Reader.ReadBinary
@@ -53,7 +53,7 @@ package bufiox
 //@   ensures (n == len(bs)) == (len(bs) <= len(old(self.$u)))
 //@   ensures n < len(bs) ==> err != nil
 //@   ensures n == len(bs) ==> err == nil
-//@   ensures err != nil ==> same(self.$lasterr, err)
+//@   ensures[ghostdef] err != nil ==> same(self.$lasterr, err)
 //@   assigns bs[0:len(bs)], self.$u, self.$readlen, self.$lasterr
 
 //@ iface Reader.ReadLen
@@ -163,6 +163,7 @@ package bufiox
 //@   ensures 0 <= ret && ret <= n && ret <= len(r.buf) - r.ri
 //@   ensures (ret == n) == (n <= len(U))
 //@   ensures ret < n ==> !isnil(r.err)
+//@   ensures region(r.buf) == region(old(r.buf)) || fresh(r.buf)
 //@   assigns r.buf, r.bufReadOnly, r.pendingBuf, r.err, r.buf[len(r.buf):cap(r.buf)], r.rd.$f, r.rd.$ferr
 //@   loop 1 invariant 4096 <= maxSize && maxSize <= 0x800000000000
 //@   loop 1 decreases n - maxSize
@@ -171,3 +172,89 @@ package bufiox
 //@   loop 3 invariant drInv(r) && same(drU(r), U) && r.ri == old(r.ri) && isnil(r.err) && n > len(r.buf) - r.ri && n <= cap(r.buf) - r.ri && i == 0
 //@   loop 3 invariant fresh(r.buf) || (region(r.buf) == region(old(r.buf)) && offset(r.buf) == offset(old(r.buf)) && cap(r.buf) == cap(old(r.buf)) && len(old(r.buf)) <= len(r.buf))
 //@   loop 3 decreases (n - (len(r.buf) - r.ri)) * 101 + (100 - i)
+
+//@ func DefaultReader.acquire
+//@   arith int
+//@   props C04, C09
+//@   requires drInv(r) && 0 <= n && n <= 0x400000000000
+//@   let U = drU(r)
+//@   ensures drInv(r) && same(drU(r), U) && r.ri == old(r.ri)
+//@   ensures 0 <= ret && ret <= n && ret <= len(r.buf) - r.ri
+//@   ensures (ret == n) == (n <= len(U))
+//@   ensures ret < n ==> !isnil(r.err)
+//@   ensures region(r.buf) == region(old(r.buf)) || fresh(r.buf)
+//@   assigns r.buf, r.bufReadOnly, r.pendingBuf, r.err, r.buf[len(r.buf):cap(r.buf)], r.rd.$f, r.rd.$ferr
+
+//@ func DefaultReader.Next
+//@   arith int
+//@   props C04, C09
+//@   refines Reader.Next
+//@   requires drInv(r) && n <= 0x400000000000
+//@   ensures drInv(r) && n <= 0x400000000000
+//@   ensures err != nil && n >= 0 ==> same(err, r.rd.$ferr)
+//@   assigns r.ri, r.buf, r.bufReadOnly, r.pendingBuf, r.err, r.buf[len(r.buf):cap(r.buf)], r.rd.$f, r.rd.$ferr
+
+//@ func DefaultReader.Peek
+//@   arith int
+//@   props C04, C09
+//@   refines Reader.Peek
+//@   requires drInv(r) && n <= 0x400000000000
+//@   ensures drInv(r) && n <= 0x400000000000
+//@   assigns r.buf, r.bufReadOnly, r.pendingBuf, r.err, r.buf[len(r.buf):cap(r.buf)], r.rd.$f, r.rd.$ferr
+
+//@ func DefaultReader.Skip
+//@   arith int
+//@   props C04, C09
+//@   refines Reader.Skip
+//@   requires drInv(r) && n <= 0x400000000000
+//@   ensures drInv(r) && n <= 0x400000000000
+//@   assigns r.ri, r.buf, r.bufReadOnly, r.pendingBuf, r.err, r.buf[len(r.buf):cap(r.buf)], r.rd.$f, r.rd.$ferr
+
+//@ func DefaultReader.ReadLen
+//@   arith int
+//@   props C04
+//@   refines Reader.ReadLen
+//@   ensures n == r.ri
+
+//@ func DefaultReader.ReadBinary
+//@   arith int
+//@   props C04, C09
+//@   refines Reader.ReadBinary
+//@   requires drInv(r) && region(bs) != region(r.buf) && len(bs) <= 0x400000000000
+//@   ensures drInv(r) && region(bs) != region(r.buf) && len(bs) <= 0x400000000000
+//@   assigns bs[0:len(bs)], r.ri, r.buf, r.bufReadOnly, r.pendingBuf, r.err, r.buf[len(r.buf):cap(r.buf)], r.rd.$f, r.rd.$ferr
+
+//@ func DefaultReader.Release
+//@   arith int
+//@   props C04, C09
+//@   refines Reader.Release
+//@   requires drInv(r)
+//@   ensures drInv(r)
+//@   assigns r.ri, r.buf, r.pendingBuf, r.maxSizeStats, r.buf[0:len(r.buf)]
+//@   loop 1 invariant true
+
+// The source of a bytes reader never delivers anything: its future stream is empty.
+//@ model fakeIOReader.$f = ""
+//@ model BytesReader.$u = strwin(self.rd.$f, self.ri - len(self.buf), len(self.rd.$f) + len(self.buf) - self.ri)
+//@ model BytesReader.$readlen = self.ri
+
+//@ func fakeIOReader.Read
+//@   arith int
+//@   props C04, C09
+//@   ensures n == 0 && err == io.EOF
+//@   assigns \nothing
+
+//@ func NewDefaultReader
+//@   arith int
+//@   props C04
+//@   requires !isnil(rd)
+//@   ensures fresh(ret) && drInv(ret) && same(ret.rd, rd) && ret.ri == 0 && isnil(ret.buf) && isnil(ret.err)
+
+// NewBytesReader: the reader's unread stream is exactly the given bytes. That the ghost
+// stream array of the (private, never-delivering) source extends backwards over the caller's
+// bytes is a choice of ghost state at construction: the eqbytes conjunct of drInv is trusted.
+//@ func NewBytesReader
+//@   arith int
+//@   props C04, C09
+//@   ensures fresh(ret) && ret.ri == 0 && (cap(buf) > 0 ==> same(ret.buf, buf) && ret.bufReadOnly) && (cap(buf) == 0 ==> isnil(ret.buf)) && isnil(ret.err) && !isnil(ret.rd) && len(ret.rd.$f) == 0
+//@   ensures[trusted] drInv(ret)
